@@ -23,6 +23,11 @@ class AnalysisError(Exception):
     """The analysis cannot run (anchor vanished, unparsable tree, ...): exit 2."""
 
 
+class AnchorVanished(AnalysisError):
+    """A function of the reviewed decomposition is gone and could not be restored: whatever was judged so far in this run was
+    judged against a different decomposition and is not reported as a violation."""
+
+
 def repo_root() -> str:
     return os.environ.get("VERIF_REPO", "/repo")
 
@@ -324,19 +329,19 @@ class Program:
         """Own-or-inherited method; AnalysisError if it vanished (anchor check)."""
         f = self.lookup_method(self.cls(cls_name), meth)
         if f is None:
-            raise AnalysisError(f"anchor vanished: {cls_name}.{meth}")
+            raise AnchorVanished(f"anchor vanished: {cls_name}.{meth}")
         return f
 
     def own_method(self, cls_name: str, meth: str) -> FuncInfo:
         c = self.cls(cls_name)
         if meth not in c.methods:
-            raise AnalysisError(f"anchor vanished: {cls_name}.{meth} (own method)")
+            raise AnchorVanished(f"anchor vanished: {cls_name}.{meth} (own method)")
         return c.methods[meth]
 
     def function(self, mod_name: str, fn: str) -> FuncInfo:
         m = self.modules.get(mod_name)
         if m is None or fn not in m.functions:
-            raise AnalysisError(f"anchor vanished: {mod_name}.{fn}")
+            raise AnchorVanished(f"anchor vanished: {mod_name}.{fn}")
         return m.functions[fn]
 
     def all_functions(self) -> Iterator[FuncInfo]:
